@@ -60,6 +60,27 @@ theorem flush_ne_nil (st : St) (v : Bytes) (h : v ≠ []) : st.flush v = st.add 
 theorem safeLit_ne_nil (v : Bytes) (h : safeLit v = true) : v ≠ [] := by
   intro hv; subst hv; simp [safeLit] at h
 
+theorem innerLit_ne_nil (v : Bytes) (h : innerLit v = true) : v ≠ [] := by
+  intro hv; subst hv; simp [innerLit] at h
+
+theorem innerLit_ok (v : Bytes) (h : innerLit v = true) : innerOk v = true := by
+  simp only [innerLit, Bool.and_eq_true] at h; exact h.2
+
+theorem innerOk_bytes : ∀ (v : Bytes), innerOk v = true → ∀ c ∈ v, safeByte c = true ∨ c = cDot
+  | [], _, c, hc => by cases hc
+  | [x], h, c, hc => by
+    simp only [innerOk] at h
+    simp only [List.mem_singleton] at hc
+    subst hc; exact Or.inl h
+  | x :: d :: t, h, c, hc => by
+    simp only [innerOk, Bool.and_eq_true, Bool.or_eq_true, decide_eq_true_eq] at h
+    simp only [List.mem_cons] at hc
+    rcases hc with rfl | hc
+    · rcases h.1 with h1 | h1
+      · exact Or.inl h1
+      · exact Or.inr h1.1
+    · exact innerOk_bytes (d :: t) h.2 c (by simpa using hc)
+
 theorem canon_cons (p : Part) (ps : List Part) (h : canon (p :: ps) = true) :
     canonPart p = true ∧ canon ps = true ∧ (p.isLit = true → headIsLit ps = false) := by
   simp only [canon, Bool.and_eq_true, Bool.not_eq_true', Bool.and_eq_false_iff] at h
@@ -87,7 +108,7 @@ theorem feed_flush (u : List Part) : canon u = true → ∀ (st : St) (pend : By
       subst hpend
       simp only [canonPart] at hcp
       simp only [feed, List.nil_append]
-      rw [ih hcps st v (Or.inr (hadj rfl)), flush_ne_nil _ _ (safeLit_ne_nil v hcp), flush_nil,
+      rw [ih hcps st v (Or.inr (hadj rfl)), flush_ne_nil _ _ (innerLit_ne_nil v hcp), flush_nil,
         St.add, addParts_addParts]
       rfl
     | brace s e =>
@@ -219,6 +240,32 @@ theorem scan_seq3 (a b c : Bytes) (ha : safeLit a = true) (hb : safeLit b = true
   simp [St.closeStep, St.dotsStep, St.flush, hane, hbne, hcne, St.add, St.addParts, St.openBrace,
     Frame.elems, hv]
 
+theorem scan_dot_single (st : St) (pend : Bytes) (d : UInt8) (r : Bytes) (hd : d ≠ cDot) :
+    scan st .normal pend (cDot :: d :: r) = scan st .normal (pend ++ [cDot]) (d :: r) := by
+  simp only [scan]
+  simp only [dot_ne_bs, dot_ne_lb, dot_ne_comma, if_false, if_true]
+  cases hs : st.stack with
+  | nil => simp
+  | cons f fs => simp [hd]
+
+theorem scan_inner : ∀ (v : Bytes), innerOk v = true → ∀ (st : St) (pend rest : Bytes),
+    scan st .normal pend (v ++ rest) = scan st .normal (pend ++ v) rest
+  | [], _, st, pend, rest => by simp
+  | [c], h, st, pend, rest => by
+    simp only [innerOk] at h
+    exact scan_safe [c] (by simp [h]) st pend rest
+  | c :: d :: r, h, st, pend, rest => by
+    simp only [innerOk, Bool.and_eq_true, Bool.or_eq_true, decide_eq_true_eq] at h
+    have ih := scan_inner (d :: r) h.2 st (pend ++ [c]) rest
+    rcases h.1 with hc | ⟨rfl, hd⟩
+    · have := scan_safe [c] (by simp [hc]) st pend ((d :: r) ++ rest)
+      simp only [List.singleton_append] at this
+      rw [List.cons_append, this, ih]; simp
+    · rw [List.cons_append, List.cons_append, scan_dot_single st pend d (r ++ rest) hd]
+      have := ih
+      simp only [List.cons_append] at this
+      rw [this]; simp
+
 /-! ### the whole tree -/
 
 theorem addParts_stack_ne (st : St) (ps : List Part) (h : st.stack ≠ []) :
@@ -301,7 +348,7 @@ theorem scanPart : ∀ (p : Part), canonPart p = true → ScanFeeds [p]
     intro st pend rest
     simp only [canonPart] at h
     simp only [render_cons, renderPart_lit, render_nil, List.append_nil, feed]
-    exact scan_safe v (safeLit_all v h) st pend rest
+    exact scan_inner v (innerLit_ok v h) st pend rest
   | .brace true elems, h => by
     intro st pend rest
     simp only [canonPart, if_true, Bool.and_eq_true] at h
@@ -410,8 +457,9 @@ theorem not_mem_render_of_lits (t : List Part) (hc : canon t = true) (h : hasBra
       refine ⟨?_, ih hps h⟩
       intro hm
       simp only [canonPart] at hp
-      have := List.all_eq_true.mp (safeLit_all v hp) cLB hm
-      simp [safeByte] at this
+      rcases innerOk_bytes v (innerLit_ok v hp) cLB hm with h1 | h1
+      · simp [safeByte] at h1
+      · exact absurd h1 (by decide)
     | brace s e => simp at h
 
 theorem allLit_of_not_hasBrace (t : List Part) (h : hasBrace t = false) : t.all Part.isLit = true := by
